@@ -531,7 +531,7 @@ def run_property(prop, tier, replay_file=None, only=None, jobs=None, keep=False)
     if only:
         units = [u for u in units if re.search(only, u.name)]
     meta = spec.get("META", {})
-    outroot = os.path.join(VERIF, "out", prop)
+    outroot = os.path.join(os.environ.get("VX_OUTDIR", os.path.join(VERIF, "out")), prop)
     os.makedirs(outroot, exist_ok=True)
     budget = {"timeout": 150 if tier == "quick" else 900, "mem_gb": 8 if tier == "quick" else 16}
     seed = int(os.environ.get("VERIF_SEED", "0") or 0)
@@ -678,8 +678,9 @@ def write_evidence(prop, tier, seed, results, meta, vio, known_hits, undecided, 
         "wall_s": round(wall, 2),
         "violations": len(vio),
     }
-    os.makedirs(os.path.join(VERIF, "evidence"), exist_ok=True)
-    with open(os.path.join(VERIF, "evidence", prop + ".json"), "w") as f:
+    evdir = os.environ.get("VX_EVIDENCE_DIR", os.path.join(VERIF, "evidence"))
+    os.makedirs(evdir, exist_ok=True)
+    with open(os.path.join(evdir, prop + ".json"), "w") as f:
         json.dump(ev, f, indent=1)
 
 
